@@ -1026,7 +1026,9 @@ class Distributions(object):
             else:  # 'linear'
                 wu, wl = self.wu, self.wl
                 pc = [self._int_linear(wl, wu, c, Qw) for c in self.c]
-            pc = np.array(pc).T  # [r, n]
+            # (float: bincount without weights returns integers, which cannot
+            #  hold the np.inf written below for empty bins)
+            pc = np.array(pc, dtype=float).T  # [r, n]
 
         elif self.method == 'remap':
             # Coordinates.
